@@ -210,6 +210,8 @@ def aligned_text(rng, total, feature, align=4096, head='', unit=None, gaps=True)
       'line-start'      a line ends (LF) at k*align-1: the next line starts the block
       'blank-start'     the same, and the line that starts the block is empty, followed by a continuation line
       'sep-straddle'    a paragraph separator of two empty lines lies across k*align (one LF before, the rest after)
+      'sep-straddle2'   a separator of three empty lines lies across k*align: two LFs before it, two after
+      'sep:n:j'         the end of a line and the n-1 empty lines after it: n LFs, j of them before k*align
       'marker-start'    the line that starts the block is a " ." marker followed by a continuation line
     `unit(i)` returns the lines of the i-th paragraph (default: a Comment field with a few continuation lines); the
     last of them is the one padded."""
@@ -230,6 +232,10 @@ def aligned_text(rng, total, feature, align=4096, head='', unit=None, gaps=True)
             end = nxt + 1            # LF at nxt: the line and its CR occupy up to nxt-1
         elif feature == 'sep-straddle':
             end = nxt                # the first LF at nxt-1; the empty lines follow
+        elif feature == 'sep-straddle2':
+            end = nxt - 1            # the line's LF at nxt-2, the first empty line's LF at nxt-1, two more follow
+        elif feature.startswith('sep:'):
+            end = nxt - int(feature.split(':')[2]) + 1
         else:
             end = nxt                # LF at nxt-1
         room = end - pos - len(term) - len(last)
@@ -247,6 +253,13 @@ def aligned_text(rng, total, feature, align=4096, head='', unit=None, gaps=True)
         elif feature == 'sep-straddle':
             out.append(term + term)
             pos += 2 * len(term)
+        elif feature == 'sep-straddle2':
+            out.append(term * 3)
+            pos += 3 * len(term)
+        elif feature.startswith('sep:'):
+            more = int(feature.split(':')[1]) - 1
+            out.append(term * more)
+            pos += more * len(term)
         elif gaps and rng.random() < .5:
             out.append(term)
             pos += len(term)
